@@ -13,7 +13,11 @@
 //	           accept; F: in the same write as the downstream proxy's 200 head)
 //	    phase  c<writes>[h|f]/t<writes>[h|f]   both sides run concurrently, then a checkpoint
 //	           writes = comma separated <size>[x<count>][~<pause_ms>]
-//	           h = CloseWrite after the writes, f = full Close after the writes
+//	           h = CloseWrite after the writes, f = full Close after the writes,
+//	           a = abortive close (SetLinger(0); Close -> RST), u = stop reading, let the
+//	           other side's writes of this phase arrive, then Close with that data unread
+//	           (kernel answers RST).  a/u: this side writes nothing in that phase;
+//	           u: the other side writes 1..65536 bytes in that phase
 //	FAIL <via>   CONNECT to a port nobody listens on (D direct, M through a real downstream
 //	             martian, X the downstream proxy itself is unreachable)
 //
@@ -21,7 +25,8 @@
 //
 //	TUN:  s<status> then per phase  t<n><+|!><-|E|X>/c<n><+|!><-|E|X>  (n bytes received so
 //	      far, + = they equal the first n bytes the other side sent, E = clean end of stream
-//	      seen, X = read error, '#' alone = this end closed its socket), finally R1|R0|R-
+//	      seen, X = read error (acceptable instead of E only once the other end aborted),
+//	      '#' alone = this end closed its socket), finally R1|R0|R-
 //	      (both proxies' handlers returned within the grace period; R- = not applicable
 //	      because an end never shut)
 //	FAIL: s<status> W1|W0
@@ -57,7 +62,7 @@ type wr struct{ size, count, pause int }
 
 type side struct {
 	ws   []wr
-	shut byte // 0, 'h', 'f'
+	shut byte // 0, 'h', 'f', 'a', 'u'
 }
 
 func (s side) total() int {
@@ -78,7 +83,7 @@ type tcase struct {
 
 func parseSide(s string) (side, error) {
 	var sd side
-	if n := len(s); n > 0 && (s[n-1] == 'h' || s[n-1] == 'f') {
+	if n := len(s); n > 0 && strings.IndexByte("hfau", s[n-1]) >= 0 {
 		sd.shut = s[n-1]
 		s = s[:n-1]
 	}
@@ -148,6 +153,15 @@ func parseTun(in []string) (*tcase, error) {
 		if cshut && (len(ph.c.ws) > 0 || ph.c.shut != 0) || tshut && (len(ph.t.ws) > 0 || ph.t.shut != 0) {
 			return nil, fmt.Errorf("action after shut")
 		}
+		for _, pr := range [][2]side{{ph.c, ph.t}, {ph.t, ph.c}} {
+			me, other := pr[0], pr[1]
+			if (me.shut == 'a' || me.shut == 'u') && len(me.ws) > 0 {
+				return nil, fmt.Errorf("abort with writes")
+			}
+			if me.shut == 'u' && (other.total() < 1 || other.total() > 65536 || other.shut != 0) {
+				return nil, fmt.Errorf("u needs 1..65536 bytes from the other side")
+			}
+		}
 		cshut = cshut || ph.c.shut != 0
 		tshut = tshut || ph.t.shut != 0
 		tc.phases = append(tc.phases, ph)
@@ -203,10 +217,10 @@ func (e *end) reader(r io.Reader, want []byte, wg *sync.WaitGroup) {
 }
 
 type snap struct {
-	n          int64
-	bad, eof   int32
-	local      int32
-	wdone      int64
+	n        int64
+	bad, eof int32
+	local    int32
+	wdone    int64
 }
 
 func (e *end) snap() snap {
@@ -232,8 +246,40 @@ func (s snap) tok(pfx string) string {
 
 type halfCloser interface{ CloseWrite() error }
 
-func writer(conn net.Conn, e *end, data []byte, off int, sd side, wg *sync.WaitGroup) {
+// writer performs one side's actions of one phase.  mine is closed when this
+// side's writes are done, others when the other side's are.
+func writer(conn net.Conn, e *end, data []byte, off int, sd side, wg *sync.WaitGroup, mine chan<- struct{}, others <-chan struct{}) {
 	defer wg.Done()
+	if sd.shut == 'u' {
+		// stop reading now, so that what the other side sends stays unread
+		atomic.StoreInt32(&e.local, 1)
+		conn.SetReadDeadline(time.Now())
+	}
+	writeAll(conn, e, data, off, sd)
+	close(mine)
+	switch sd.shut {
+	case 'h':
+		conn.(halfCloser).CloseWrite()
+	case 'f':
+		atomic.StoreInt32(&e.local, 1)
+		conn.Close()
+	case 'a':
+		atomic.StoreInt32(&e.local, 1)
+		if tc, ok := conn.(*net.TCPConn); ok {
+			tc.SetLinger(0)
+		}
+		conn.Close()
+	case 'u':
+		select {
+		case <-others:
+		case <-time.After(25 * time.Second):
+		}
+		time.Sleep(40 * time.Millisecond)
+		conn.Close()
+	}
+}
+
+func writeAll(conn net.Conn, e *end, data []byte, off int, sd side) {
 	for _, w := range sd.ws {
 		for i := 0; i < w.count; i++ {
 			if w.size > 0 {
@@ -248,13 +294,6 @@ func writer(conn net.Conn, e *end, data []byte, off int, sd side, wg *sync.WaitG
 				time.Sleep(time.Duration(w.pause) * time.Millisecond)
 			}
 		}
-	}
-	switch sd.shut {
-	case 'h':
-		conn.(halfCloser).CloseWrite()
-	case 'f':
-		atomic.StoreInt32(&e.local, 1)
-		conn.Close()
 	}
 }
 
@@ -445,16 +484,17 @@ func runTun(tc *tcase, grace, headWait time.Duration) (out []string, timingOnly 
 	for _, ph := range tc.phases {
 		var wwg sync.WaitGroup
 		wwg.Add(2)
-		go writer(cconn, &ce, cdata, coff, ph.c, &wwg)
-		go writer(tconn, &te, tdata, toff, ph.t, &wwg)
+		cw, tw := make(chan struct{}), make(chan struct{})
+		go writer(cconn, &ce, cdata, coff, ph.c, &wwg, cw, tw)
+		go writer(tconn, &te, tdata, toff, ph.t, &wwg, tw, cw)
 		wdone := make(chan struct{})
 		go func() { wwg.Wait(); close(wdone) }()
 		coff += ph.c.total()
 		toff += ph.t.total()
 		cshut = cshut || ph.c.shut != 0
 		tshut = tshut || ph.t.shut != 0
-		cfull = cfull || ph.c.shut == 'f'
-		tfull = tfull || ph.t.shut == 'f'
+		cfull = cfull || strings.IndexByte("fau", ph.c.shut) >= 0 && ph.c.shut != 0
+		tfull = tfull || strings.IndexByte("fau", ph.t.shut) >= 0 && ph.t.shut != 0
 
 		// checkpoint
 		met := func(cs, ts snap, wd bool) bool {
@@ -530,8 +570,8 @@ func ideal(tc *tcase) []string {
 		tn += ph.t.total()
 		cshut = cshut || ph.c.shut != 0
 		tshut = tshut || ph.t.shut != 0
-		cfull = cfull || ph.c.shut == 'f'
-		tfull = tfull || ph.t.shut == 'f'
+		cfull = cfull || strings.IndexByte("fau", ph.c.shut) >= 0 && ph.c.shut != 0
+		tfull = tfull || strings.IndexByte("fau", ph.t.shut) >= 0 && ph.t.shut != 0
 		ef := func(b bool) int32 {
 			if b {
 				return 1
@@ -598,7 +638,7 @@ func eq(a, b []string) bool {
 		return false
 	}
 	for i := range a {
-		if a[i] != b[i] {
+		if strings.ReplaceAll(a[i], "X", "E") != b[i] {
 			return false
 		}
 	}
